@@ -110,19 +110,22 @@ class Flow(object):
             pscope = self.scope.parent
             if pscope:
                 snames = pscope.names
+                rerouted = self.scope.globals and pscope is not self.scope.top
                 if isinstance(self.scope, ClassScope):
-                    return MergedDict(snames)
+                    if not rerouted:
+                        return MergedDict(snames)
+                    names = {n: snames[n] for n in snames}
                 else:
                     outer_names = set(snames).difference(self.scope.locals)
                     names = {n: snames[n] for n in outer_names}
-                    if self.scope.globals and pscope is not self.scope.top:
-                        # declared global: enclosing functions are skipped
-                        gnames = self.scope.top.names
-                        for n in self.scope.globals:
-                            names.pop(n, None)
-                            if n in gnames:
-                                names[n] = gnames[n]
-                    return names
+                if rerouted:
+                    # declared global: enclosing functions are skipped
+                    gnames = self.scope.top.names
+                    for n in self.scope.globals:
+                        names.pop(n, None)
+                        if n in gnames:
+                            names[n] = gnames[n]
+                return names
             else:
                 return {}
 
